@@ -27,7 +27,7 @@ fn describe(prop: &str) -> (&'static str, &'static str) {
         ),
         "C04" => (
             "every total T in 0..=N (N=12 quick, 24 thorough), every tally (yes,no,abstain,veto) with sum <= T, every AbsoluteCount 1..=T, percentages/quorums at every rounding boundary i/j reachable with weights <= N (floor/ceil at 9 and at 18 decimals and their +-1 ulp neighbours), expired and not; large scope T in {2^32, 2^63, 2^64-2, 2^64-1} with counters on a boundary grid {0,1,T/3,T/2-1,T/2,T/2+1,T-1,T}",
-            "needed(w,p)=ceil(w*p) in u128; after expiry the library's decision equals the documented formula with yes>0 (percentages with <= 9 decimals) or lies between exact and one-vote-laxer (18 decimals); before expiry: backward dynamic programming over the lattice gives mustPass (all completions) / canPass (some completion): library Passed => mustPass, library Rejected => not canPass; never passed and rejected together; never Passed with yes=0; no panic for tallies <= total; current_status consistent with is_passed/is_rejected",
+            "needed(w,p)=ceil(w*p) in u128; after expiry the library's decision equals the documented formula with yes>0 (percentages with <= 9 decimals) or lies between exact and one-vote-laxer (18 decimals); before expiry: backward dynamic programming over the lattice gives mustPass (all completions) / canPass (some completion): library Passed => mustPass, library Rejected => not canPass; never passed and rejected together; never Passed with yes=0; no panic for tallies <= total; current_status consistent with is_passed/is_rejected; the verdict depends on the block only through whether voting has ended (seven clocks: AtHeight at h-1/h, AtTime with a sub-second expiry instant just before/at/after it, Never)",
         ),
         _ => ("", ""),
     }
